@@ -312,7 +312,7 @@ impl Engine for C15 {
         let in_cli = if stdin { s("-") } else { file_in.clone() };
         let stdin_bytes = |on: bool| if on { Some(render_bytes(&case.records, &case.container)) } else { None };
         let alt = case.extra.first().map(|e| write_input(&dir, "alt", &e.records, &e.container));
-        let steps = max_steps(&case.tier);
+        let steps = steps_for(case);
         let auto = pu64(p, "auto_threads") as usize;
         let invalid = pstr(p, "invalid");
 
